@@ -20,7 +20,7 @@ RULE = ("Hypothesis-generated COND sources over the documented constructors (run
         "re-evaluated by the model from their source text) + 'clean outcome' predicate (exit 0/1, ERROR: line, no Traceback, "
         "file named, zero spawns, no task output created) for `cond run --check T` and `cond run T`. Non-trivial = the case "
         "contains >=1 fault or >=1 include and the target's closure has >=2 tasks. Distinct = SHA-1 of case JSON."
-        " Also generated: include(path=...), included files whose functions use the file's own top-level names, complex/Decimal/Fraction values (not primitive).")
+        " Also generated: include(path=...), included files whose functions use the file's own top-level names, complex/Decimal/Fraction values (not primitive); the same relative include string in the COND files of two directories, valid for one and dangling for the other.")
 ASSUMPTIONS = ["strings containing NUL and COND files raising BaseException subclasses (SystemExit, KeyboardInterrupt) are outside the domain",
                "a task-level fault (malformed dep string, non-primitive arg, ...) in a definition the command does not need may be accepted or rejected",
                "ill-typed chain_experiments is a don't-care (documented as Boolean, implemented by truthiness)"]
@@ -136,11 +136,16 @@ def _case(draw, tier):
     includes = {}
     all_names = {0: [], 1: []}
     one_fault_at = draw(st.sampled_from(range(5)))
+    # the same relative include string in two COND files of different directories: it names a file next to the root COND
+    # (fine) and a file next to p/COND that does not exist (a fault of p/COND, whatever was resolved before)
+    same_string = scenario == "include_fault_only" and npk == 2 and draw(st.sampled_from([False, False, True]))
     for p in range(npk - 1, -1, -1):
         pkg = PKGS[p]
         stmts = []
         # include directives first
-        if scenario == "include_fault_only" and p == 0:
+        if same_string:
+            inc = "missing_same" if p == 1 else draw(st.sampled_from(["ok", "ok_kw"]))
+        elif scenario == "include_fault_only" and p == 0:
             inc = draw(st.sampled_from(["missing", "ext", "ext2", "outside", "outside_root", "outside_symlink", "dir", "nested",
                                         "defines_task", "syntax", "runtime", "runtime_noargs", "runtime_raise", "nonstr"]))
         elif scenario != "mixed":
@@ -231,6 +236,8 @@ def include_line(how, pkg):
         return "include('//%s')" % (os.path.join(pkg, "common.cond"))
     if how == "missing":
         return "include('nope.cond')"
+    if how == "missing_same":
+        return "include('common.cond')"
     if how == "ext":
         return "include('common.py')"
     if how == "ext2":
